@@ -11,7 +11,7 @@ Line protocol for the CAIT model (drivers `driver_c10` / `driver_c11`).
   match := M <root:path|-> <nmap> (<pp> <sp>)* <nexp> (<key:x> <path>)* <nbind> (<tbl:v|f|c> <key:x> <id:x> <path>)* <nconf>
 
   request `match <ptree> <stree>`          -> `ok <n> match*`
-  request `embed <ptree> <stree> <match>`  -> `ok 1` | `ok 0`    (checkEmbedding on a match of the REAL code)
+  request `embed <ptree> <stree> <n> match*` -> `ok (0|1)*`   (checkMatch on matches of the REAL code)
 -/
 namespace Pedal.Cait
 open Pedal.Wire
@@ -136,9 +136,14 @@ def handleEmbed (ts : List String) : String :=
   match (do
     let (p, ts) ← parseTree (ts.length + 1) ts
     let (s, ts) ← parseTree (ts.length + 1) ts
-    let (m, ts) ← parseMatch ts
-    if ts.isEmpty then pure (p, s, m) else none) with
-  | some (p, s, m) => "ok " ++ (if checkMatch p s m.1 m.2 then "1" else "0")
+    match ts with
+    | n :: ts =>
+      let n ← n.toNat?
+      let (ms, ts) ← takeN parseMatch n ts
+      if ts.isEmpty then pure (p, s, ms) else none
+    | [] => none) with
+  | some (p, s, ms) =>
+    " ".intercalate ("ok" :: ms.map fun m => if checkMatch p s m.1 m.2 then "1" else "0")
   | none => "bad-request"
 
 def dispatch : List String → String
